@@ -13,7 +13,7 @@ from .interp import _is_generator
 
 def _desc(t):
     if t is TInt:
-        return dict(kind='int')
+        return dict(kind='int', big=BIG[0])
     if t is TBool:
         return dict(kind='bool')
     if t is TStr:
@@ -36,9 +36,13 @@ def _desc(t):
     return None
 
 
+BIG = [False]
+
+
 def native_params(c):
     if getattr(c, 'native', None) is False:
         return None
+    BIG[0] = bool(getattr(c, 'native_bigints', False))
     out = {}
     for n, t in c.params.items():
         d = (getattr(c, 'native', None) or {}).get(n) or _desc(t)
